@@ -661,6 +661,10 @@ def new_leaf(valtext, pad):
 
 
 EDIT_VALUES = ["1", "2", "3", "4", "5", "7", "9", "10", "2.5", "6.5", "0.5", "100", "0"]
+# values next to the tolerance of math.isclose(rel_tol=1e-9): inside it (consumed by a repeat of 1 / 2 / 5 / 10),
+# just outside it, and far outside it in float terms but close for a loose comparison
+EDIT_NEAR = ["1.0000000005", "1.00000002", "2.0000000005", "2.00001", "5.000000000001", "5.0000001", "10.000000001",
+             "10.0001", "2.5000000001", "0.99999999"]
 
 
 def printable(node, valtext):
@@ -679,7 +683,8 @@ def gen_edits(rng, nvals, heavy):
     for _ in range(rng.choice([0, 1, 1, 1, 2, 3] if not heavy else [1, 2, 3, 5])):
         r = rng.random()
         if n == 0 or r < 0.2:
-            eds.append(["ins", rng.randint(0, n), rng.choice(EDIT_VALUES), rng.random() < 0.7])
+            eds.append(["ins", rng.randint(0, n), rng.choice(EDIT_NEAR if rng.random() < 0.3 else EDIT_VALUES),
+                        rng.random() < 0.7])
             n += 1
         elif r < 0.45:
             eds.append(["del", rng.randrange(n)])
@@ -1259,11 +1264,6 @@ def gen_read_case(rng):
         toks = [{"k": "n", "t": rng.choice(["2", "4", "10"])}, {"k": "m", "t": rng.choice(["0.5m", "2.5M", "1e1m"])},
                 {"k": "n", "t": "3"}]
         return {"card": "surf", "toks": toks}
-    if q < 0.105:
-        # a jump over nothing in front of a shortcut
-        toks = [{"k": "n", "t": rng.choice(["1", "2.5"])}, {"k": "j", "t": rng.choice(["0j", "0J"])},
-                {"k": "r", "t": rng.choice(["r", "2r"])}]
-        return {"card": rng.choice(["e", "surf"]), "toks": toks}
     if q < 0.2:
         toks = gen_tokens(rng, allow_m=True, errors=0.0, max_groups=4)
         return {"card": "surf", "toks": toks}
@@ -1622,7 +1622,7 @@ def sweep_cases(rng, wide=False):
     if n > (60 if wide else 26):
         return []
     out = []
-    v = rng.choice(EDIT_VALUES)
+    v = rng.choice(EDIT_NEAR if rng.random() < 0.25 else EDIT_VALUES)
     for p in range(n + 1):
         ops = [["ins", p, v, rng.random() < 0.7]]
         if p < n:
@@ -1761,12 +1761,12 @@ def replay(ctx, path):
 
 def run(ctx):
     quick = ctx.tier == "quick"
-    n_exp = 700 if quick else 20000
-    n_bare = 800 if quick else 40000
-    n_sweep = 22 if quick else 700
-    n_carrier = 150 if quick else 5000
-    n_read = 500 if quick else 12000
-    n_direct = 120 if quick else 3000
+    n_exp = 700 if quick else 15000
+    n_bare = 800 if quick else 25000
+    n_sweep = 22 if quick else 450
+    n_carrier = 150 if quick else 3500
+    n_read = 500 if quick else 10000
+    n_direct = 120 if quick else 2500
     ctx.prove()
     ok, log = vlib.coq_make(["Model/Shortcut.vo"])
     if not ok:
